@@ -3,10 +3,61 @@ import itertools
 import math
 from fractions import Fraction
 
+import os
+import re
+import time
+
 import numpy
 
+import vlib
 from vlib import cz, czl, cnat, cnatl, cbool, clist, copt, cq, cfloat, guarded
 
+GEN = os.path.join(vlib.COQ, "Gen", "C07_gen.v")
+
+
+def regen(repo=None, typecheck=True):
+    """Tie (T): regenerate coq/Gen/C07_gen.v from the working tree's deap/tools/emo.py (harness/c07_py2coq.py).
+    A function the translator refuses is emitted as an alias of the model; so is one whose generated definition
+    does not type-check (the translator must never make the build fail on a source it did not understand).
+    Returns {function: None (regenerated) | refusal text}."""
+    import c07_py2coq
+    repo = repo or vlib.REPO
+    forced = {}
+    status = {}
+    for _ in range(len(c07_py2coq.FUNCTIONS) + 1):
+        text, status = c07_py2coq.translate_repo(repo, forced)
+        with vlib.BuildLock():
+            os.makedirs(os.path.dirname(GEN), exist_ok=True)
+            old = open(GEN).read() if os.path.exists(GEN) else None
+            if old != text:
+                with open(GEN, "w") as f:
+                    f.write(text)
+        if not typecheck or all(v is not None for v in status.values()):
+            break
+        ok, out = vlib.make_targets(["Gen/C07_gen.vo"], timeout=1200)
+        for attempt in range(2):
+            if ok or "Error" in out:
+                break
+            time.sleep(10)                       # make died without a Coq error (killed): not a verdict
+            ok, out = vlib.make_targets(["Gen/C07_gen.vo"], timeout=1200)
+        if ok:
+            break
+        m = re.search(r'File "\./Gen/C07_gen\.v", line (\d+)', out)
+        if not m:
+            break                                # the failure is elsewhere: reported by build_props
+        line = int(m.group(1))
+        culprit = None
+        for k, l in enumerate(text.splitlines(), 1):
+            d = re.match(r"(?:Definition|Fixpoint) (gen_\w+)", l)
+            if d and k <= line:
+                culprit = [f for f, g in c07_py2coq.GEN_NAME.items() if g == d.group(1)][0]
+        if culprit is None or culprit in forced or status.get(culprit) is not None:
+            break
+        forced[culprit] = c07_py2coq.Refuse("FunctionDef", "the generated definition does not type-check: %s"
+                                            % " ".join(out[m.end():m.end() + 300].split()))
+    return {k: (None if v is None else str(v)) for k, v in status.items()}
+
+GEN_KINDS = ("CSelectQ", "CSelectF", "CSpea2Q", "CSpea2F", "CRefF", "CRefQ")     # case kinds Corr/C07_gen.v re-evaluates with the regenerated definitions
 EPS = Fraction(1, 2 ** 52)          # numpy.finfo(float).eps
 
 
@@ -450,6 +501,51 @@ def main(run):
                         "reference points non-zero, scaling in (0, 1]"]
     run.build_props(extra=["Props/C07_full.v"])
     run.build_props(props="Props/C07_full.v")       # selNSGA3 composed with C04's sorters, find_intercepts (obligations + Print Assumptions)
+
+    # ---- tie (T): regenerate Gen/C07_gen.v from the working tree, re-prove regenerated = model ----------
+    import c07_py2coq
+    try:
+        status = regen()
+    except Exception as e:  # noqa  (fail closed: a crash of the translator is a refusal of everything)
+        status = {f: "translator error %s: %s" % (type(e).__name__, e) for f in c07_py2coq.FUNCTIONS}
+        try:
+            with vlib.BuildLock():
+                with open(GEN, "w") as f:
+                    f.write(c07_py2coq.translate_source("raise SyntaxError(", "unparsable")[0])
+        except Exception:  # noqa
+            pass
+    translated = [f for f in c07_py2coq.FUNCTIONS if status.get(f) is None]
+    refused = [(f, status[f]) for f in c07_py2coq.FUNCTIONS if status.get(f) is not None]
+    gen_proved, gen_corr = False, False
+    if translated:
+        gen_proved = run.build_props(props="Props/C07_gen.v", extra=["Corr/C07_gen.v"])
+        gen_corr = os.path.exists(os.path.join(vlib.COQ, "Corr", "C07_gen.vo")) and gen_proved
+        run.trusted += ["translator harness/c07_py2coq.py with its signature table (parameter types, which parameter is the array mutated in "
+                        "place, the fuel of `while` loops / of the recursion and the value an exhausted fuel reads as - the conventions of the "
+                        "hand model; K = math.sqrt(N) as isqrt; ints next to floats through their float value; list.sort() / sorted() as insertion sort; "
+                        "numpy.zeros / numpy.array / array-op-scalar as declared primitives; the interface of the two branch units of selSPEA2) "
+                        "and the run-time library coq/Model/C07_GenRt.v; negative indices are not wrapped; validated on every run "
+                        "because the regenerated definitions are evaluated against the implementation on the recorded calls"]
+    if translated and not refused:
+        tie = "tie: regenerated (%d/%d functions translated from the working-tree source%s)" % (
+            len(translated), len(c07_py2coq.FUNCTIONS),
+            " and proved equal to the model for every input" if gen_proved else
+            "; the equivalence with the model / the theorems on the regenerated definitions NO LONGER CHECK")
+    elif translated:
+        tie = "tie: regenerated for %s%s; correspondence-only for %s" % (
+            ", ".join(translated), "" if gen_proved else " (equivalence / theorems NO LONGER CHECK)",
+            "; ".join("%s (translator refused %s)" % x for x in refused))
+    else:
+        tie = "tie: correspondence-only (translator refused %s)" % "; ".join("%s: %s" % x for x in refused)
+    tie += ("; every other function of the property (selNSGA3, niching, find_extreme_points, find_intercepts, "
+            "associate_to_niche) is tied by correspondence only")
+    run.notes.append(tie)
+    run.extra_cov["tie"] = tie
+    run.extra_cov["regenerated_functions"] = translated
+    run.extra_cov["refused_functions"] = dict(refused)
+    if refused and translated:
+        run.notes.append("the theorems of Props/C07_gen.v about %s are about the model alias on this run (not regenerated)"
+                         % ", ".join(f for f, _ in refused))
     rng = run.rng
     pf = PopFactory(base)
     groups = {}
@@ -1163,7 +1259,6 @@ def main(run):
     for _ in range(run.scale(15, 150)):
         nsga3_case(memory_calls=rng.randint(2, 4), floats=True, mode=rng.choice(["class", "func"]), nclients=rng.choice([1, 2]))
 
-    import time
     run.extra_cov["timing"] = {"generate_s": round(time.time() - run.t0, 1)}
     run.extra_cov["case_kinds"] = {g: len(groups[g][0]) for g in sorted(groups)}
     run.extra_cov["find_intercepts_branches"] = dict(coverage["icpt"])      # exact branch, "/boundary" = decision not stable under rounding
@@ -1184,3 +1279,15 @@ def main(run):
     t1 = time.time()
     run.correspond("all", "C07", terms, cases, shard=run.scale(60, 120))
     run.extra_cov["timing"]["coq_s"] = round(time.time() - t1, 1)
+    # the regenerated definitions evaluated on the same recorded calls (validates the translator itself)
+    if gen_corr:
+        sub = [i for i, t in enumerate(terms) if t.split(" ", 1)[0] in GEN_KINDS]
+        if run.tier == "quick":          # the many small exhaustive selSPEA2 cases: every third one is re-evaluated
+            sub = [i for n, i in enumerate(sub) if not terms[i].startswith("CSpea2Q") or n % 3 == 0]
+        t2 = time.time()
+        run.correspond("regen", "C07_gen", [terms[i] for i in sub], [dict(cases[i], evaluated="regenerated definitions") for i in sub],
+                       check="check_gen", shard=run.scale(60, 120))
+        run.corr_groups["regen"]["evaluated"] = "regenerated definitions (Gen/C07_gen.v) on the recorded calls"
+        run.extra_cov["timing"]["coq_regen_s"] = round(time.time() - t2, 1)
+    elif translated:
+        run.notes.append("Props/C07_gen.v / Corr/C07_gen.v did not build: the regenerated definitions were not evaluated")
